@@ -146,6 +146,14 @@ INFO = {
     'C15-combine-latest-emit-on-falsy-index-c15': ('emit_on=0 and a later connect / disconnect', '-'),
     'C16-windowed-groupby-groupers-in-place-c16': ('windowed groupby keyed by a stream, a batch on which the aggregation raises', 'bounded resume enumeration also registered for C16'),
     'C16-emit-retains-inside-loop': ('the emitting node introduces the counter, >= 2 branches, a later one raises', '-'),
+    'C17-textfile-seek-only-for-path-strings': ('from_end=True with an already opened file object that has content', 'from_textfile constructor contract'),
+    'C17-emit-iterates-live-downstreams-c17': ('a consumer of a file source that changes the graph while a record is delivered', '_emit contract tagged for the source properties'),
+    'C18-from-q-drains-queue-in-one-cycle': ('stop() while an emit of from_q is suspended and items are queued', 'from_q._run under contract'),
+    'C18-from-tcp-stop-guard-uses-started': ('start, stop, stop on from_tcp (or one stop reaching it through two branches)', 'stop() of the socket-server sources under contract'),
+    'C19-map-async-task-on-current-loop': ('blocking pipeline with map_async started from the caller thread', 'map_async._create_task under contract (Herbrand attribute chains)'),
+    'C19-set-asynchronous-inherits-before-explicit': ('asynchronous=False passed to a node extending an asynchronous pipeline', '-'),
+    'C20-sliding-window-return-inside-full-branch-c20': ('DaskStream.sliding_window(n>=2) upstream of an asynchronous node', 'step contracts of the nodes re-exported by dask.py tagged C20'),
+    'C20-gather-does-not-await-emission': ('anything asynchronous after gather()', 'awaited-emission clause extended to `raise gen.Return`'),
 }
 
 
